@@ -809,3 +809,58 @@ def check_identity_fault_twins(ctx, lane):
                     ctx.violate("C05", "swap_costs_two", "exchanging two correctly tracked identities costs %d switch(es), not 2" % (g_tot - b_tot),
                                 {"base": b_cl, "got": g_cl, "labels": [l1, l2]}, None)
                     break
+
+
+# ---- C13: a second evaluator alive in the same process, operations interleaved ------------------------
+
+
+def check_interleaved_manager(ctx, lane):
+    """C13 `history_independent` across evaluators: the plan is executed again on a fresh evaluator while a second
+    evaluator (other dataset with the same timestamps and tokens, other coordinate frame, permuted label order) is
+    driven in lock-step, one operation each in turn.  Nothing the other evaluator does may change this one's results."""
+    from .plan import derive_sibling
+
+    plan = ctx.plan
+    if lane.aborted or not lane.steps:
+        return
+    noise_plan = derive_sibling(plan, dx=-64.0, dy=211.0, dz=-0.3, dyaw=-1.1)
+    noise_plan = dict(noise_plan)
+    cfg = copy.deepcopy(plan["config"])
+    cfg["frame"] = "map" if cfg["frame"] == "base_link" else "base_link"
+    noise_plan["config"] = cfg
+    noise_plan["lookup"] = dict(plan["lookup"], interp=False)
+    sub = _sub_ctx(ctx, noise_plan)
+    inter = X.Lane(ctx, "inter", frame=lane.frame, monitors=())
+    noise = X.Lane(sub, "noise", monitors=())
+    try:
+        noise.begin()
+        inter.begin()
+        ops = [op for op in plan["ops"] if op["op"] != "analyze"]
+        for index, op in enumerate(plan["ops"]):
+            if op["op"] == "analyze":
+                continue
+            inter.do_op(index, op)
+            try:
+                noise.do_op(index, op)
+            except X.LaneAborted:
+                pass
+    except X.LaneAborted:
+        return
+    ctx.probe("c13_interleaved_runs")
+    mine = [st for st in lane.steps]
+    if len(inter.steps) != len(mine):
+        ctx.violate("C13", "history_independent", "an evaluator performs a different number of deliveries when another evaluator is active", {}, None)
+        return
+    for a, b in zip(mine, inter.steps):
+        d = D.diff(D.step_digest(ctx, a), D.step_digest(ctx, b), 1e-12)
+        if d:
+            ctx.violate("C13", "history_independent", "a delivery evaluates differently while a second evaluator is being driven in the same process",
+                        {"diff": d[:300]}, a.index)
+            return
+    for sa, sb in zip(lane.scene_scores, inter.scene_scores):
+        if sa["score"] is None or sb["score"] is None:
+            continue
+        d = D.diff(D.metrics_digest(sa["score"]), D.metrics_digest(sb["score"]), 1e-12)
+        if d:
+            ctx.violate("C13", "history_independent", "a scene score differs while a second evaluator is being driven in the same process", {"diff": d[:300]}, sa["index"])
+            return
